@@ -11,6 +11,8 @@ real type objects.
 """
 import asyncio
 import dataclasses
+
+import pydantic
 import hashlib
 import types
 import typing
@@ -187,6 +189,15 @@ async def _interp(ctx, ev, sp, prog):
 _NTH = {}  # step name -> entries so far in this case (reset with the recorder)
 
 
+class VfState(pydantic.BaseModel):
+    """typed workflow state (Context[VfState]) whose containers are filled IN PLACE, never assigned: the common way user code
+    accumulates state (`state.seen.append(x)`, `state.kv[k] = v`)"""
+
+    kv: dict = pydantic.Field(default_factory=dict)
+    log: list = pydantic.Field(default_factory=list)
+    label: str = "fresh"
+
+
 def dec(x):
     """decode spec values: {"$uuid": n} -> uuid.UUID(int=n), a value JsonSerializer cannot carry inside waiter requirements as is"""
     if isinstance(x, dict):
@@ -312,7 +323,15 @@ async def _run_acts(ctx, ev, sp, prog, att, v, uid, bid):
             ctx.write_event_to_stream(e)
         elif k == "state":
             op = act["op"]
-            if op == "append":
+            if prog.get("typed_state"):
+                async with ctx.store.edit_state() as s:
+                    if op == "append":
+                        s.log.append([act["key"], v])
+                    elif op == "set":
+                        s.kv[act["key"]] = act.get("val", v)
+                    else:
+                        s.kv[act["key"]] = s.kv.get(act["key"], 0) + 1
+            elif op == "append":
                 async with ctx.store.edit_state() as s:
                     cur = list(s.get(act["key"], []))
                     if act.get("sleep"):
@@ -473,7 +492,7 @@ def build_workflow(spec):
         fn = make(sp)
         fn.__name__ = name
         fn.__qualname__ = f"VfProgram.{name}"
-        fn.__annotations__ = {"ctx": Context, "ev": _union(in_types), "return": _union(ret_types)}
+        fn.__annotations__ = {"ctx": (Context[VfState] if spec.get("typed_state") else Context), "ev": _union(in_types), "return": _union(ret_types)}
         if is_handler:
             h = sp["handler"]
             fn = catch_error(for_steps=h.get("for"), max_recoveries=h.get("max", 1))(fn)
